@@ -681,10 +681,17 @@ def b_sum(eng, st, a, kw):
             tot = tot + Z(seq.at(z3.IntVal(ii)))
         return IntV(tot)
     # sum of a filtered "1 for ..." comprehension is its length
-    flt = seq.meta.get("filter")
+    flt = seq.meta.get("filter") or seq.meta.get("map_filter")
     probe = seq.at(fresh("s"))
     if isinstance(probe, IntV) and probe.concrete() == 1:
         return IntV(seq.n)
+    if flt is not None and len(a) == 1:
+        # rule FILTER-SUM (generic lemma, induction on the base range; lemma:filter_sum): the sum of the selected values
+        # of a filter over range(n) is the sum over the WHOLE range of "value if selected else 0"
+        from .dsl import register_wsum
+
+        eng.rules_used.add("filter-sum (sum of a filtered listing = sum over the base range of 'value if selected else 0'; lemma:filter_sum)")
+        return register_wsum(eng, flt["n"], lambda k_: z3.If(flt["pred"](k_), Z(flt["val"](k_)), z3.IntVal(0)), st.assume)
     # general prefix sums
     ps = fresh_fun("psum", z3.IntSort(), z3.IntSort())
     i = fresh("si")
